@@ -54,7 +54,7 @@ SRC_ORDER = ['GenPrim', 'GenWidthP', 'GenPrimP', 'GenDiv', 'GenDivP', 'GenLoopP'
              'GenSqrt', 'GenSqrtP', 'GenIntDiv', 'GenIntDivP', 'GenMulMod', 'GenMulModP', 'GenAmm', 'GenAmmP',
              'GenSafeGcd', 'GenSafeGcdP', 'GenSafeGcdJumpP', 'GenSafeGcdBitsP', 'GenWrap', 'GenWrapP', 'GenCmp', 'GenCmpP', 'GenIntCmp', 'GenIntCmpP', 'GenLogic', 'GenLogicP']
 # source-derived leakage model of C01 (tools/rs2v_leak.py): Leak<G>.v is generated next to Gen<G>.v, Leak<G>P.v is hand-written
-_LEAK_GROUPS = ['Prim', 'Div', 'Uint', 'Mod', 'Shift', 'Mul', 'Int', 'DivLimb', 'Monty', 'Hex', 'Bits', 'DivCt', 'Sqrt', 'Amm', 'MulMod', 'IntDiv', 'Cmp', 'IntCmp', 'Conv', 'Wrap', 'SafeGcd']
+_LEAK_GROUPS = ['Prim', 'Div', 'Uint', 'Mod', 'Shift', 'Mul', 'Int', 'DivLimb', 'Monty', 'Hex', 'Bits', 'DivCt', 'Sqrt', 'Amm', 'MulMod', 'IntDiv', 'Cmp', 'IntCmp', 'Conv', 'Wrap', 'SafeGcd', 'Logic']
 _LEAK = ['LeakIterP'] + [x for g in _LEAK_GROUPS for x in ('Leak' + g, 'Leak' + g + 'P')]
 SRC_ORDER += _LEAK
 _PRIM = ['GenPrim', 'GenWidthP', 'GenPrimP']
